@@ -11,6 +11,7 @@ func init() {
 	execs["ENC"] = execEnc
 	execs["DEC"] = execDec
 	execs["RT"] = execRT
+	execs["ENCH"] = execEnch
 }
 
 func optU16(p *uint16) string {
@@ -149,11 +150,12 @@ func execDec(in string) string {
 func execRT(in string) string {
 	f := fields(in)
 	c := parseClaims(f[1:])
+	out := obsGetters(c)
 	b, err := psatoken.EncodeClaimsToCBOR(c)
 	if err != nil {
-		return "err"
+		return strings.Join(append(out, "err"), " ")
 	}
-	out := []string{"ok:" + hexTok(b)}
+	out = append(out, "ok:"+hexTok(b))
 	c2, err, p := decodeGuard(b)
 	if p {
 		return strings.Join(append(out, "panic"), " ")
@@ -165,4 +167,25 @@ func execRT(in string) string {
 		out = append(out, "-")
 	}
 	return strings.Join(out, " ")
+}
+
+func execEnch(in string) string {
+	f := fields(in)
+	var st histState
+	switch f[1] {
+	case "new1":
+		c, _ := psatoken.NewClaims(psatoken.Profile1Name)
+		st.c = c
+	case "new1np":
+		st.c = newP1NoProfile()
+	case "new2":
+		c, _ := psatoken.NewClaims(psatoken.Profile2Name)
+		st.c = c
+	default:
+		panic("bad init " + f[1])
+	}
+	for _, op := range f[2:] {
+		applyOp(&st, op)
+	}
+	return guard(func() string { return errTok(st.c.Validate()) }) + " " + encTok(st.c)
 }
